@@ -685,7 +685,19 @@ def oracle_c11(c, obs):
 def gen_c10(rng, tier):
     cases = []
     n = 30 if tier == "quick" else 500
-    chars = ["2.9", "4.9", "3.12", "3.10", "4.13"]      # 4.13 permits read and write but NOT events
+    chars = ["2.9", "4.9", "3.12", "3.10", "4.13", "4.16"]      # 4.13 permits read and write but NOT events; 4.16 is an observable string
+    texts = ["plain", "HTTP/1.0", "speaks HTTP/1.0 and HTTP/1.0", "EVENT/1.0 200 OK", "a\r\n\r\nb", "Content-Length: 0", "ü€😀", ""]
+
+    def val_for(ch):
+        if ch in ("2.9", "4.9"):
+            return rng.choice(["true", "false"])
+        if ch == "3.12":
+            return sc.num(rng.choice([10, 20, 30.5, 38, 5, 50, 100, 9.5]))
+        if ch == "4.13":
+            return jstr("t%d" % rng.randrange(5))
+        if ch == "4.16":
+            return jstr(rng.choice(texts))
+        return sc.num(rng.choice([0, 1, 2]))
     for _ in range(n):
         k = rng.randrange(2, 5)
         conns = ["c%d" % i for i in range(k)]
@@ -703,12 +715,10 @@ def gen_c10(rng, tier):
                 ops.append("P:%s:%s:-:%d" % (rng.choice(live), rng.choice(chars), rng.randrange(2)))
             elif r < 0.55:
                 ch = rng.choice(chars)
-                v = rng.choice(["true", "false"]) if ch in ("2.9", "4.9") else (sc.num(rng.choice([10, 20, 30.5, 38, 5, 50, 100, 9.5])) if ch == "3.12" else (jstr("t%d" % rng.randrange(5)) if ch == "4.13" else sc.num(rng.choice([0, 1, 2]))))
-                ops.append("L:%s:%s" % (ch, v))
+                ops.append("L:%s:%s" % (ch, val_for(ch)))
             elif r < 0.8 and live:
                 ch = rng.choice(chars)
-                v = rng.choice(["true", "false"]) if ch in ("2.9", "4.9") else (sc.num(rng.choice([10, 20, 30.5, 38, 5, 50, 100, 9.5])) if ch == "3.12" else (jstr("t%d" % rng.randrange(5)) if ch == "4.13" else sc.num(rng.choice([0, 1, 2]))))
-                ops.append("P:%s:%s:%s:-" % (rng.choice(live), ch, v))
+                ops.append("P:%s:%s:%s:-" % (rng.choice(live), ch, val_for(ch)))
             elif r < 0.9 and len(live) > 1:
                 c = rng.choice(live)
                 ops.append("K:" + c)
@@ -737,6 +747,11 @@ def gen_c10(rng, tier):
                 ops += ["P:c1:3.12:%s:-" % sc.num(b)]
             ops += ["W", "E:c0", "E:c1"]
         mk(cases, "atbound", ops)
+    # directed: texts that look like parts of the HTTP / EVENT framing, as values of an observable string
+    for t in texts[1:6]:
+        ops = ["N:p", "S:p:c0:ok", "N:c0", "V:c0:c0:ok", "N:c1", "V:c1:c0:ok", "P:c0:4.16:-:1", "P:c1:4.16:-:1",
+               "P:c0:4.16:%s:-" % jstr(t), "W", "E:c0", "E:c1", "L:4.16:%s" % jstr(t + "!"), "W", "E:c0", "E:c1", "G:c1:4.16", "P:c1:2.9:true:-", "G:c1:2.9"]
+        mk(cases, "texts", ops)
     for i in range(4 if tier == "quick" else 40):
         # the application has a read callback on an observable characteristic that lags behind what is written (hardware
         # follows asynchronously): writes and local sets are still notified once, to the subscribed others, with the value
